@@ -9,16 +9,22 @@ FIELDS = {
     ("Agent", "works_for"): ("WorksFor", "single", ("Org",)),
     ("Agent", "member_of"): ("MemberOf", "list", ("Org",)),
     ("Agent", "affiliated_with"): ("AffiliatedWith", "set", ("Org",)),
+    # Fellow(Agent): the inherited fields, and the field of the top-most super property that only this subclass has
+    ("Fellow", "works_for"): ("WorksFor", "single", ("Org",)),
+    ("Fellow", "member_of"): ("MemberOf", "list", ("Org",)),
+    ("Fellow", "affiliated_with"): ("AffiliatedWith", "set", ("Org",)),
+    ("Fellow", "connected_to"): ("ConnectedTo", "set", ("Org",)),
     ("Boss", "head_of"): ("HeadOf", "single", ("Org",)),
-    ("Org", "members"): ("Member", "set", ("Agent",)),
+    ("Org", "members"): ("Member", "set", ("Agent", "Fellow")),
     ("Org", "part_of"): ("PartOf", "list", ("Org",)),
     ("Org", "has_part"): ("HasPart", "list", ("Org",)),
     ("Org", "linked_to"): ("LinkedTo", "list", ("Org",)),
 }
 SUPER = {  # strict super-properties
-    "HeadOf": ("WorksFor", "MemberOf", "AffiliatedWith"),
-    "WorksFor": ("MemberOf", "AffiliatedWith"),
-    "MemberOf": ("AffiliatedWith",),
+    "HeadOf": ("WorksFor", "MemberOf", "AffiliatedWith", "ConnectedTo"),
+    "WorksFor": ("MemberOf", "AffiliatedWith", "ConnectedTo"),
+    "MemberOf": ("AffiliatedWith", "ConnectedTo"),
+    "AffiliatedWith": ("ConnectedTo",),
 }
 INVERSE = {"MemberOf": "Member", "WorksFor": "Member", "HeadOf": "Member", "Member": "MemberOf",
            "PartOf": "HasPart", "HasPart": "PartOf"}
